@@ -1,6 +1,7 @@
 // Native replay for C20 against the REAL STIR libraries of /repo's working tree.
 // usage: c20_replay indata <num_rings> <num_detectors_per_ring> <max_ring_diff> <fan_size>   FanProjData::is_in_data / operator() against the fan geometry (ASan)
 //        c20_replay gaps                                                                       the same on a scanner with virtual crystals: gap bins get the gap value
+//        c20_replay applyundo                                                                  apply multiplies by the factor of the pair's class, un-apply restores (block factors, efficiencies)
 //        c20_replay roundtrip                                                                  proj data -> fan data -> proj data is lossless inside the fan
 // exit 0: as specified; exit 1 + CONFIRMED line otherwise
 #include "stir/ML_norm.h"
@@ -11,6 +12,7 @@
 #include "stir/Scanner.h"
 #include "stir/Bin.h"
 #include <algorithm>
+#include <cmath>
 #include <cstdio>
 #include <cstdlib>
 #include <cstring>
@@ -120,6 +122,67 @@ static int mlblock()
   return 0;
 }
 
+// apply / un-apply of the three factor kinds on the ECAT 953 fan data: apply multiplies every entry by the factor of its class
+// (block factor: (ra/Ca, a/Ct, rb/Ca, b/Ct); efficiencies: eff[ra][a]*eff[rb][b]), un-apply restores the data up to rounding
+static int applyundo()
+{
+  shared_ptr<Scanner> scanner(new Scanner(Scanner::E953));
+  shared_ptr<ProjDataInfo> info(ProjDataInfo::ProjDataInfoCTI(scanner, 1, scanner->get_num_rings() - 1, scanner->get_num_detectors_per_ring() / 2,
+                                                             scanner->get_max_num_non_arccorrected_bins(), false));
+  shared_ptr<ExamInfo> exam(new ExamInfo);
+  ProjDataInMemory pd(exam, info);
+  pd.fill(50.F);
+  FanProjData orig;
+  make_fan_data_remove_gaps(orig, pd);
+  const int nab = scanner->get_num_axial_blocks(), ntb = scanner->get_num_transaxial_blocks();
+  const int Ca = scanner->get_num_rings() / nab, Ct = scanner->get_num_detectors_per_ring() / ntb;
+  unsigned long st = 4711UL;
+  auto rnd = [&st]() { st = st * 6364136223846793005ULL + 1442695040888963407ULL; return 0.75F + 0.5F * float((st >> 40) & 0xFFFF) / 65536.F; };
+  BlockData3D blocks(nab, ntb, nab - 1, ntb - 1);
+  for (int ra = blocks.get_min_ra(); ra <= blocks.get_max_ra(); ++ra)
+    for (int a = blocks.get_min_a(); a <= blocks.get_max_a(); ++a)
+      for (int rb = blocks.get_min_rb(ra); rb <= blocks.get_max_rb(ra); ++rb)
+        for (int b = blocks.get_min_b(a); b <= blocks.get_max_b(a); ++b)
+          blocks(ra, a, rb, b) = rnd();
+  DetectorEfficiencies eff(IndexRange2D(scanner->get_num_rings(), scanner->get_num_detectors_per_ring()));
+  for (int r = 0; r < scanner->get_num_rings(); ++r)
+    for (int d = 0; d < scanner->get_num_detectors_per_ring(); ++d)
+      eff[r][d] = rnd();
+  const BlockData3D& B = blocks;
+  for (int kind = 0; kind < 2; ++kind)
+    {
+      FanProjData data = orig;
+      if (kind == 0) apply_block_norm(data, blocks, true); else apply_efficiencies(data, eff, true);
+      FanProjData back = data;
+      if (kind == 0) apply_block_norm(back, blocks, false); else apply_efficiencies(back, eff, false);
+      const FanProjData &O = orig, &D = data, &K = back;
+      for (int ra = O.get_min_ra(); ra <= O.get_max_ra(); ++ra)
+        for (int a = O.get_min_a(); a <= O.get_max_a(); ++a)
+          for (int rb = std::max(ra, O.get_min_rb(ra)); rb <= O.get_max_rb(ra); ++rb)
+            for (int b = O.get_min_b(a); b <= O.get_max_b(a); ++b)
+              {
+                if (O(ra, a, rb, b) == 0) continue;
+                const int bm = b % scanner->get_num_detectors_per_ring();
+                const float f = kind == 0 ? B(ra / Ca, a / Ct, rb / Ca, b / Ct) : eff[ra][a] * eff[rb][bm];
+                const float want = O(ra, a, rb, b) * f;
+                if (!(std::fabs(D(ra, a, rb, b) - want) <= 1e-5F * std::fabs(want)))
+                  {
+                    std::printf("CONFIRMED %s(apply): entry (%d,%d)-(%d,%d) is %g, the data times the factor of its class is %g\n",
+                                kind == 0 ? "apply_block_norm" : "apply_efficiencies", ra, a, rb, bm, D(ra, a, rb, b), want);
+                    return 1;
+                  }
+                if (!(std::fabs(K(ra, a, rb, b) - O(ra, a, rb, b)) <= 1e-5F * std::fabs(O(ra, a, rb, b))))
+                  {
+                    std::printf("CONFIRMED %s: apply followed by un-apply does not restore entry (%d,%d)-(%d,%d): %g -> %g -> %g\n",
+                                kind == 0 ? "apply_block_norm" : "apply_efficiencies", ra, a, rb, bm, O(ra, a, rb, b), D(ra, a, rb, b), K(ra, a, rb, b));
+                    return 1;
+                  }
+              }
+    }
+  std::printf("REPLAY ok\n");
+  return 0;
+}
+
 // the range accessors the library's loops iterate over, against the geometry: partner rings of ring ra are max(ra-D,0)..min(ra+D,R-1),
 // partner detectors of detector a are a+N/2-h..a+N/2+h
 static int ranges(int R, int N, int D, int fan)
@@ -190,6 +253,7 @@ int main(int argc, char** argv)
       if (argc >= 2 && !strcmp(argv[1], "gaps")) return gaps();
       if (argc >= 6 && !strcmp(argv[1], "ranges")) return ranges(atoi(argv[2]), atoi(argv[3]), atoi(argv[4]), atoi(argv[5]));
       if (argc >= 2 && !strcmp(argv[1], "mlblock")) return mlblock();
+      if (argc >= 2 && !strcmp(argv[1], "applyundo")) return applyundo();
     }
   catch (...)
     {
